@@ -798,7 +798,7 @@ fn gen_duality_column(t: &mut Tape, a: &LType, b: &LType, len: usize, strict: bo
     }
     // C13f16: i256::to_i64 wraps for values outside the i64 range; keep Decimal256 -> signed integer quotients inside it
     let f16_lim: Option<BigInt> = match (a, b) {
-        (LType::Decimal { width: 256, s, .. }, LType::Int { signed: true, .. }) if !strict && *s >= 0 => Some((BigInt::from(i64::MAX) + 1) * pow10(*s as u32) - 1),
+        // (fixed finding C13f16: values outside the i64 range are generated again)
         _ => None,
     };
     (0..len)
@@ -997,9 +997,6 @@ fn sub_duality(c: &mut Case) -> CaseResult {
             }
             // C13f10: the infallible rescale paths unwrap on the payload of null slots
             zero_payload = true;
-        }
-        if matches!((&a, &b), (LType::Decimal { width: 256, .. }, LType::Int { signed: true, .. })) {
-            c.exclude("C13f16-i256-to-i64-wraps");
         }
     }
     c.class(fam);
